@@ -294,8 +294,11 @@ fn norm(name: &str, spdc0: &SPDC, rng: &mut Rng, n: usize) {
 fn grid(spdc: &SPDC, res: usize, halfwidth_spans: f64) -> FrequencySpace {
   let span = span_of(spdc);
   let (s0, i0) = (hz(spdc.signal.frequency()), hz(spdc.idler.frequency()));
+  // unequal spacings on the two axes (same point count: the Schmidt number needs a square matrix), so that the cell area
+  // dws * dwi is distinguishable from dws * dws or dwi * dwi
   let d = halfwidth_spans * span;
-  FrequencySpace::new((w(s0 - d), w(s0 + d), res), (w(i0 - d), w(i0 + d), res))
+  let di = 0.61 * d;
+  FrequencySpace::new((w(s0 - d), w(s0 + d), res), (w(i0 - di), w(i0 + di), res))
 }
 
 fn rates(spdc: &SPDC, res: usize, integ: Integrator) -> Result<Value, String> {
@@ -403,7 +406,9 @@ fn counts(name: &str, spdc: &SPDC, res: usize, integ: Integrator) {
     let sing_i: Vec<f64> = js.jsi_singles_idler_range(g).iter().map(|x| x.value_unsafe).collect();
     let (dws, dwi) = g.steps().division_widths();
     let pts: Vec<Value> = g.as_steps().into_iter().map(|(a, b)| json!([fx(hz(a)), fx(hz(b))])).collect();
+    let st = g.as_steps();
     json!({"kind":"counts","setup":name,"res":res,"corr":fx(get_counts_correction(&sp)),"dws":fx(hz(dws)),"dwi":fx(hz(dwi)),
+      "xr":[fx(hz(st.0.0)), fx(hz(st.0.1))], "yr":[fx(hz(st.1.0)), fx(hz(st.1.1))], "nx": st.0.2, "ny": st.1.2,
       "pts": pts, "jsi": fxs(&jsi), "jsi_singles": fxs(&sing), "jsi_singles_idler": fxs(&sing_i),
       "c": fx(sp.counts_coincidences(g, integ).value_unsafe), "rs": fx(sp.counts_singles_signal(g, integ).value_unsafe),
       "ri": fx(sp.counts_singles_idler(g, integ).value_unsafe)})
